@@ -130,6 +130,8 @@ def real(name, lo=None, hi=None, pos=False, default=None, strict=True):
         return x
     if name in ST.values:
         v = _parse_value(ST.values[name])
+    elif name in ST.drawn:
+        v = ST.drawn[name]
     else:
         l2 = lo
         if pos and (l2 is None or l2 <= 0):
@@ -153,6 +155,8 @@ def integer(name, lo, hi, default=None):
         return x
     if name in ST.values:
         v = int(_parse_value(ST.values[name]))
+    elif name in ST.drawn:
+        v = ST.drawn[name]
     else:
         v = default if default is not None else ST.rng.randint(lo, hi)
         ST.drawn[name] = v
@@ -168,6 +172,8 @@ def boolean(name, default=None):
     if name in ST.values:
         v = _parse_value(ST.values[name])
         v = bool(v)
+    elif name in ST.drawn:
+        v = ST.drawn[name]
     else:
         v = default if default is not None else bool(ST.rng.getrandbits(1))
         ST.drawn[name] = v
